@@ -128,6 +128,15 @@ def strc_program(src_k, k, form):
             f"empty @is_you(int i) {{ const string ls = \"hello\"; write('<'); write({e}); write('>'); }}\n")
 
 
+# the index is the counter of a loop bounded by the length, but the body moves it
+LOOPIDX_PROGS = [
+    "empty @is_you(int n) { int[] arr = [11, 22, 33]; for (int i = 0; i < arr.length; i += 1) { if (n == 0) { write('.'); } else { i += n; } write('<'); write(arr[i]); write('>'); } }",
+    "empty @is_you(int n) { byte[] arr = ['a', 'b', 'c', 'd']; for (int i = 0; i < arr.length; i += 1) { try { !truth_is_defeat(n > 0); write('t'); } undo { i += n; } write('<'); write(arr[i]); write('>'); } }",
+    "empty @is_you(int n) { int[] arr = [11, 22, 33]; for (int i = 0; i < arr.length; i += 1) { for (int j = 0; j < n; i += 1) { j += 1; } write('<'); arr[i] += 1; write(arr[i]); write('>'); } }",
+    "empty @is_you(int n) { bool[] arr = [true, false, true]; int i = 0; while (i < arr.length) { if (n < 0) { i -= 1; } write('<'); write(arr[i]); write('>'); i += 1 + n; } }",
+    "int at(const int[] arr, int n) { for (int i = 0; i < arr.length; i += 1) { if (i == 1) { i = i + n; } if (arr[i] == 22) { return i; } } return 0 - 1; }\nempty @is_you(int n) { write('<'); write(at([11, 0, 22], n)); write('>'); }",
+]
+
 DIV_PROGS = [
     "empty @is_you(int a, int b) { write('<'); writeln(a / b); write('>'); }",
     "empty @is_you(int a, int b) { write('<'); writeln(a % b); write('>'); }",
@@ -142,6 +151,9 @@ DIV_PROGS = [
     "empty @is_you(int a, int b) { write('<'); if (b != 0 and a / b > 0) { write('p'); } if (b == 0 or a % b == 0) { write('q'); } write('>'); }",
     "empty @is_you(int a, int b) { try { write('<'); !truth_is_defeat(a / b == 1); write('>'); } undo { write('u'); } }",
     "empty @is_you(int a, int b) { try { write('<'); !truth_is_defeat(a % b == 1); write('>'); } stop { write('s'); } }",
+    # the divisor was checked once before the loop, but it changes inside the loop
+    "empty @is_you(int a, int b) { if (b != 0) { write(a / b); } int k = 0; while (k < 3) { write('<'); write(a % b); write('>'); b -= 1; k += 1; } }",
+    "empty @is_you(int a, int b) { int d = b; if (d == 0) { return; } write(a / d); for (int k = 0; k < 2; k += 1) { write('<'); write(a / d); d = d / 2; write('>'); } writeln(d); }",
 ]
 
 LEN_PROG = """
@@ -180,6 +192,11 @@ def items(tier):
         i += 1
     for k in range(len(DIV_PROGS)):
         out.append((i, 'DIV', k))
+        i += 1
+    out.append((i, 'DIVC'))
+    i += 1
+    for k in range(len(LOOPIDX_PROGS)):
+        out.append((i, 'LOOPIDX', k))
         i += 1
     for el in EL:
         out.append((i, 'LEN', el))
@@ -237,6 +254,38 @@ def run_item(item, tier):
                 vals = sorted(set([-mx - 1, -mx, mx - 1, mx, -256, -255, 255, 256, 1 << bits - 2, -(1 << bits - 2)] + list(range(-9, 10))))
             run_program(st, DIV_PROGS[k], [[str(a), str(b)] for a in vals for b in vals], [W], f'DIV[{k}]')
         st.sample({'family': 'DIV', 'program': DIV_PROGS[k]})
+    elif fam == 'LOOPIDX':
+        run_program(st, LOOPIDX_PROGS[item[2]], [[str(n)] for n in (0, 1, 2, 3, 4, -1, -2, 7)], Ws, f'LOOPIDX[{item[2]}]')
+        st.add('cases', 8)
+    elif fam == 'DIVC':
+        # divisors that are compile-time constants: zero, and values that wrap to zero at the word size in use
+        forms = ["write('<'); writeln(a / {k}); write('>');", "write('<'); writeln(a % {k}); write('>');", "int x = a; write('<'); x /= {k}; write('>'); writeln(x);",
+                 "int[] v = [a, a]; write('<'); v[1] %= {k}; write('>'); writeln(v[1]);", "byte y = 'c'; write('<'); y /= {k}; write('>'); writeln(y is int);",
+                 "write('<'); if (a / {k} > 0) {{ write('p'); }} write('>');"]
+        for W in Ws:
+            bits = 8 * W
+            for kt in ('0', str(1 << bits), str(2 << bits), 'KZ', '(KB - KB)', 'CELL', '(CELL * 3)', '1', str((1 << bits) + 1), str((1 << bits) - 1), '256'):
+                for f in forms:
+                    if 'y /=' in f and kt in ('KZ', '(KB - KB)', 'CELL', '(CELL * 3)'):
+                        continue        # a const variable is not coercible to byte
+                    src = f'const int KZ = 0; const int KB = 77; const int CELL = {1 << bits};\nempty @is_you(int a) {{ ' + f.format(k=kt) + ' }\n'
+                    prog = parse_program(src)
+                    for a in ('41', '0'):
+                        tag = f'DIVC[{f[:28]}..., divisor {kt}] a={a}'
+                        ref = ref_trace(prog, [a], W)
+                        lines, err = compile_case(src, W, 64)
+                        st.add('evaluations')
+                        if err:
+                            faults = ref[0] == 'ok' and any(e == ('f', 'error') for e in ref[1][0])
+                            if err[0] == 'reject' and faults:
+                                st.add('constant_divisor_rejected_at_compile_time')
+                            else:
+                                st.viol(f'{tag}: {err[0]}: {err[1]}', {'kind': 'conformance', 'src': src, 'prog': repr(prog), 'argv': [a], 'W': W, 'S': 64,
+                                                                          'unchecked': False, 'tag': tag})
+                            break
+                        check_conformance(st, src, prog, [a], W, 64, tag=tag, lines=lines, ref=ref)
+                        st.add('cases')
+        st.sample({'family': 'DIVC', 'forms': len(forms)})
     elif fam == 'LEN':
         el = item[2]
         for nexpr in ('n', '(n + gz) is byte'):
@@ -339,6 +388,9 @@ def coverage(total, tier):
                 f'{len(STRC_INDICES)} constant indices written as literal, const-variable expression and unary minus',
         'DIV': '/ % /= %= on locals, globals, int and byte array elements, call operands, conditions and !truth_is_defeat arguments; '
                'dividend and divisor over ' + ('({-9..9} + {min,min+1,max-1,max,+-255,+-256,+-2^(n-2)})^2' if tier == 'thorough' else '{min,-7,-1,0,1,7,max}^2'),
+        'LOOPIDX': f'{len(LOOPIDX_PROGS)} loops bounded by the array length whose body moves the counter (in an else branch, an undo handler, a nested loop header, by a negative step) x 8 offsets',
+        'DIVC': '6 division forms (value, %, /= on local, %= on element, /= on byte, condition) x 11 constant divisors (0, 2^n, 2^(n+1), const zero, K - K, const 2^n, 3 * 2^n, 1, 2^n + 1, '
+                '2^n - 1, 256): compile-time rejection allowed iff the run-time would fault',
         'LEN': 'array length (run-time value; computed + narrowed with `is byte`; literal; const-variable expression) in {min,-9,-8,-7,-2,-1,0,1,2,5,maxlen+1,max} (exact reference match at stack 8 and 64) and '
                '{maxlen, maxlen-1, just above the stack size, 4000 elements} (must be a clean stack_overflow) for int/byte/bool/string elements',
         'NLP': 'family P of C02 (preemptive defeat functions x continuations x undo/stop)',
